@@ -4,6 +4,7 @@ package main
 // evidence file of the check that used it.
 
 import (
+	"strings"
 	"fmt"
 	"go/token"
 
@@ -68,7 +69,7 @@ func init() {
 		n := n
 		libModels[n] = func(tr *FnTr, x ssa.Value, args []Val, cc *ssa.CallCommon) Val {
 			tr.usedModel("sync mutex as a ghost lock counter (sequential semantics)")
-			tr.lockOp(args[0], 1, x)
+			tr.lockOpX(args[0], 1, x, !strings.HasSuffix(n, "RLock"))
 			return Val{}
 		}
 		libEffects[n] = [2]bool{false, false}
@@ -247,12 +248,19 @@ func carryDiscarded(x ssa.Value) bool {
 	return true
 }
 
-func (tr *FnTr) lockOp(mu Val, delta int64, x ssa.Value) {
+func (tr *FnTr) lockOp(mu Val, delta int64, x ssa.Value) { tr.lockOpX(mu, delta, x, false) }
+
+// lockOpX: excl marks an exclusive Lock - taking it while this (sequentially read) code
+// already holds the mutex blocks forever, so "not held" is an obligation.
+func (tr *FnTr) lockOpX(mu Val, delta int64, x ssa.Value, excl bool) {
 	obj, off := mu.L[0], mu.L[1]
 	tr.check("nil", Ne(obj, Int(0)), posOf(x))
 	top := tr.top
 	top.lockSites = append(top.lockSites, [2]*Term{obj, off})
 	cur := Select(Select(tr.st.Locks, obj), off)
+	if excl && delta > 0 && !tr.excMode {
+		tr.vc.Oblige(tr.prefix+"lock.not_held", "", Implies(tr.st.Reach, Eq(cur, Int(0))), tr.pos(posOf(x)))
+	}
 	if delta < 0 {
 		tr.vc.Oblige(tr.prefix+"lock.unlock_held", "", Implies(tr.st.Reach, Gt(cur, Int(0))), tr.pos(posOf(x)))
 	}
